@@ -28,14 +28,18 @@ RULE = ("Hypothesis draws a protocol version (1-6, DSE 0x41/0x42), 1-4 result co
         "timestamp, timeuuid, tinyint, uuid, varchar, varint, duration), a subset of them encrypted with "
         "AES256ColumnEncryptionPolicy (per-column 32-byte keys, a 16-byte IV; the decoding side uses a second policy "
         "instance with the same keys and another default IV, as a second client would), 0-5 rows of values with None "
-        "allowed everywhere, and how the result metadata travels (inline per column, global table spec, or "
-        "NO_METADATA + the prepared statement's result metadata).  Non-trivial: at least one encrypted column that holds "
+        "allowed everywhere, how the result metadata travels (inline per column, global table spec, or "
+        "NO_METADATA + the prepared statement's result metadata), and the history of Sessions created in the process before "
+        "the result is decoded (only the case's own; or also a second cluster's session with other keys for the same columns / "
+        "a policy for another column / no policy, created before or after): the result is decoded by the protocol handler that "
+        "the real Session.__init__ installed for the case's session, and a re-keyed second session must read its own rows back too.  Non-trivial: at least one encrypted column that holds "
         "None in one row and a value in another.")
 ASSUMPTIONS = [
     "the server is modelled as a byte store: it returns exactly the bytes it was sent; an encrypted column is a blob column on the server (type code 0x0003 in the result metadata)",
     "plaintext reference is spec.values.encode; decoded values are compared through spec.values.normalise/same (sets sorted, floats by bits)",
     "timestamps are drawn within +-2**41 ms so that the known DateType sub-millisecond drift (C01) does not leak in",
     "independent decryption uses the `cryptography` package primitives (AES-256, CBC, PKCS7) directly with the case's key; the IV is the first 16 bytes of the stored value",
+    "Sessions are real cassandra.cluster.Session objects (real __init__) over a stub cluster object, with add_or_renew_pool overridden to report 'connected' (no sockets); the process-wide handler classes' column_encryption_policy attribute is restored after every case",
     "every case is decoded three times: by the pure-Python _ProtocolHandler in this process, and by cython_protocol_handler(ListParser()) "
     "and (LazyParser()) of a .pyx build of the current tree (build/cybuild.py) in a worker process (checks/_c39_cy.py), which rebuilds "
     "the policy and result metadata from the case and returns the rows normalised by spec.values; all three are compared with the original values",
@@ -52,6 +56,10 @@ TYPE_CODES = {"ascii": 0x0001, "bigint": 0x0002, "blob": 0x0003, "boolean": 0x00
               "duration": 0x0015}
 TYPES = ["ascii", "bigint", "blob", "boolean", "date", "decimal", "double", "float", "inet", "int", "smallint",
          "text", "time", "timestamp", "timeuuid", "tinyint", "uuid", "varchar", "varint", "duration"]
+
+
+SESSION_HISTORIES = [["self"], ["self"], ["self", "rekey"], ["self", "rekey"], ["rekey", "self"], ["self", "other-column"],
+                     ["self", "no-policy"], ["no-policy", "self", "rekey"], ["other-column", "self", "no-policy"]]
 
 
 # ---------------------------------------------------------------------------------------------
@@ -90,7 +98,11 @@ def s_case(draw):
     return {"pv": pv, "cols": cols, "rows": rows,
             "iv": draw(st.one_of(st.binary(min_size=16, max_size=16), st.just(b"\x00" * 15 + b"\x01"))).hex(),
             "iv2": draw(st.binary(min_size=16, max_size=16)).hex(),
-            "meta": draw(st.sampled_from(["inline", "global", "no-metadata"]))}
+            "meta": draw(st.sampled_from(["inline", "global", "no-metadata"])),
+            # Sessions created in this process, in order; results are decoded after the last one exists.
+            # "self" carries the case's policy; "rekey": another cluster whose policy has other keys for the same
+            # columns; "other-column": a policy for a different column; "no-policy": a cluster without encryption
+            "sessions": draw(st.sampled_from(SESSION_HISTORIES))}
 
 
 # ---------------------------------------------------------------------------------------------
@@ -157,17 +169,118 @@ def _driver_meta(case):
     return [ColumnMetadata(KS, TABLE, c["name"], build_type(V.T(_wire_type(c)))) for c in case["cols"]]
 
 
+SKIP = object()
+
+
+class _StubMetadata(object):
+    def all_hosts(self):
+        return []
+
+
+class _StubCluster(object):
+    """what Session.__init__ reads from its Cluster"""
+    profile_manager = None
+    metrics = None
+    monitor_reporting_enabled = False
+    client_id = "c39"
+
+    def __init__(self, pv, policy):
+        self.protocol_version = pv
+        self.column_encryption_policy = policy
+        self.metadata = _StubMetadata()
+
+
+def _session_class():
+    from concurrent.futures import Future
+    from cassandra.cluster import Session
+
+    class _Session(Session):
+        """a real Session (real __init__) whose pools count as connected at once: no sockets"""
+
+        def add_or_renew_pool(self, host, is_host_addition):
+            f = Future()
+            f.set_result(True)
+            return f
+
+    return _Session
+
+
+def _other_policy(case, kind):
+    from cassandra.column_encryption.policies import AES256ColumnEncryptionPolicy
+    from cassandra.policies import ColDesc
+    if kind == "no-policy":
+        return None
+    pol = AES256ColumnEncryptionPolicy(iv=bytes.fromhex(case["iv2"]))
+    if kind == "other-column":
+        pol.add_column(ColDesc(KS, TABLE, "zz_not_in_this_statement"), b"\x5a" * 32, "int")
+        return pol
+    for c in case["cols"]:                       # "rekey": same columns, the other cluster's keys
+        if c["enc"]:
+            pol.add_column(ColDesc(KS, TABLE, c["name"]), bytes(b ^ 0xFF for b in bytes.fromhex(c["key"])), c["type"])
+    return pol
+
+
+class _Sessions(object):
+    """Creates the case's sessions in order through the real Session.__init__ (which is where the policy reaches the
+    protocol handler) and restores the process-wide handler classes afterwards, so that cases stay independent even
+    when a broken tree leaks the policy into shared state."""
+
+    def __init__(self, case, self_policy):
+        self.case, self.self_policy = case, self_policy
+
+    def __enter__(self):
+        import cassandra.cluster as CL
+        import cassandra.protocol as PR
+        self._saved = []
+        for cls in set([PR._ProtocolHandler, PR.ProtocolHandler, CL.ProtocolHandler, CL.Session.client_protocol_handler]):
+            self._saved.append((cls, cls.__dict__.get("column_encryption_policy", SKIP)))
+        S = _session_class()
+        self.by_kind = {}
+        for kind in self.case.get("sessions") or ["self"]:
+            pol = self.self_policy if kind == "self" else _other_policy(self.case, kind)
+            self.by_kind[kind] = (S(_StubCluster(self.case["pv"], pol), [object()]), pol)
+        return self
+
+    def __exit__(self, *exc):
+        for cls, val in self._saved:
+            if val is SKIP:
+                if "column_encryption_policy" in cls.__dict__:
+                    delattr(cls, "column_encryption_policy")
+            else:
+                setattr(cls, "column_encryption_policy", val)
+        return False
+
+
 def decode_pure(case, body, policy, result_metadata):
-    from cassandra.protocol import _ProtocolHandler
-    # what Session.__init__ does with cluster.column_encryption_policy
-    handler = type("C39-ProtocolHandler", (_ProtocolHandler,), {"column_encryption_policy": policy})
-    msg = handler.decode_message(case["pv"], {}, 0, 0, 0x08, body, None, result_metadata)
-    return [tuple(r) for r in msg.parsed_rows]
+    """the session configured with the case's policy decodes its result -- after every other session of the case's
+    history has been created in the same process"""
+    with _Sessions(case, policy) as ss:
+        handler = ss.by_kind["self"][0].client_protocol_handler
+        msg = handler.decode_message(case["pv"], {}, 0, 0, 0x08, body, None, result_metadata)
+        return [tuple(r) for r in msg.parsed_rows]
+
+
+def decode_pure_other_session(case, body, policy, result_metadata):
+    """the re-keyed second cluster's session reads back ITS data (same rows, bound with its own policy)"""
+    from cassandra.query import PreparedStatement
+    from checks._drv import to_driver
+    if "rekey" not in (case.get("sessions") or ()):
+        return SKIP
+    with _Sessions(case, policy) as ss:
+        session, other = ss.by_kind["rekey"]
+        meta = _driver_meta(case)
+        prepared = PreparedStatement(meta, b"\x03" * 16, None, "INSERT ...", KS, case["pv"], meta, None,
+                                     column_encryption_policy=other)
+        stored = [list(prepared.bind([None if v is None else to_driver(V.T(c["type"]), v)
+                                      for c, v in zip(case["cols"], row)]).values) for row in case["rows"]]
+        msg = session.client_protocol_handler.decode_message(
+            case["pv"], {}, 0, 0, 0x08, rows_body(case["cols"], stored, case["meta"]), None, result_metadata)
+        return [tuple(r) for r in msg.parsed_rows]
 
 
 from checks import _c39_cy                  # noqa: E402  the compiled half (worker process on a fresh .pyx build)
 
-DECODERS = [("pure", decode_pure), ("list-parser", _c39_cy.decode_list), ("lazy-parser", _c39_cy.decode_lazy)]
+DECODERS = [("pure", decode_pure), ("pure-other-session", decode_pure_other_session), ("list-parser", _c39_cy.decode_list), ("lazy-parser", _c39_cy.decode_lazy)]
 
 
 def _null_feature(case, rows):
@@ -218,7 +331,10 @@ def interpret(case, ctx):
     if ctx._failures:
         return
     ctx.label("pv=%s" % (pv if pv < 0x40 else hex(pv)), "meta:" + case["meta"], "rows=%d" % len(rows),
-              "encrypted-cols=%d/%d" % (sum(1 for c in cols if c["enc"]), len(cols)))
+              "encrypted-cols=%d/%d" % (sum(1 for c in cols if c["enc"]), len(cols)),
+              "sessions:" + "+".join(case.get("sessions") or ["self"]))
+    if len(case.get("sessions") or ()) > 1:
+        ctx.label("several-sessions-in-process")
 
     # ---- client: bind every row through the prepared statement
     prepared = PreparedStatement(meta, b"\x02" * 16, None, "INSERT ...", KS, pv, meta, None, column_encryption_policy=policy)
@@ -274,6 +390,8 @@ def interpret(case, ctx):
         got = None
         with ctx.driver(["C39.decode", who, feat]):
             got = decode(case, rows_body(cols, stored, case["meta"]), reader_policy, result_metadata)
+        if got is SKIP:
+            continue
         if got is not None:
             _compare_rows(ctx, ["C39.decode", who], case, rows, got, who)
         elif feat == "null-in-encrypted-column":
